@@ -827,9 +827,10 @@ func (fr *frame) symIf(instr *ssa.If, c *Term) {
 // one runs at a time)
 
 type gor struct {
-	id   int
-	wake chan struct{}
-	done bool
+	id    int
+	wake  chan struct{}
+	done  bool
+	state string
 }
 
 type sched struct {
@@ -855,15 +856,18 @@ func (i *interpreter) spawn(pos token.Pos, fn value, args []value) {
 	g := &gor{id: len(s.gors), wake: make(chan struct{}, 1)}
 	s.gors = append(s.gors, g)
 	s.wg.Add(1)
+	g.state = "not started"
 	go func() {
 		defer s.wg.Done()
 		<-g.wake
+		g.state = "running"
 		if s.aborted {
 			return
 		}
 		defer func() {
 			p := recover()
 			g.done = true
+			g.state = fmt.Sprintf("exited (%T)", p)
 			if p != nil {
 				if _, ok := p.(abortGoroutine); ok {
 					return
@@ -927,8 +931,10 @@ func (i *interpreter) yield(blocked bool) {
 	}
 	savedFrame, savedInstr := i.curFrame, i.curInstr
 	s.cur = next
+	g.state = "waiting in yield -> woke " + fmt.Sprint(next.id)
 	next.wake <- struct{}{}
 	<-g.wake
+	g.state = "running"
 	i.curFrame, i.curInstr = savedFrame, savedInstr
 	if s.aborted {
 		panic(abortGoroutine{})
